@@ -693,16 +693,93 @@ func (h *hist) opEndSession() {
 		sig := h.w.Store.SigningKeyOf()
 		hint, hintKind = resign(t.Str, sig, sig.Alg, sig.Kid, past), "expired"
 	}
+	// one logout in three meets a failing storage: the call that ends the session (TerminateSessionFromRequest for a
+	// storage with the optional capability, TerminateSession otherwise), the k-th storage call of the request, or the
+	// key set the hint is verified with. The oracle is the one of every logout: the success answer (302) means the
+	// session is terminated - its tokens are unusable everywhere from then on; an error answer leaves the model
+	// untouched (a failed call has no effect in vstore), which the storage monitor confirms.
+	faultAt := ""
+	if h.r.IntN(3) == 0 {
+		kind := vstore.FaultKind(h.r.IntN(int(vstore.NumFaultKinds)))
+		switch c := h.r.IntN(10); {
+		case c < 6:
+			faultAt = "TerminateSession"
+			if h.extras {
+				faultAt = "TerminateSessionFromRequest"
+			}
+			h.w.Store.Arm(&vstore.FaultPlan{Method: faultAt, Kind: kind})
+		case c < 8:
+			k := 1 + h.r.IntN(4)
+			faultAt = fmt.Sprintf("storage-call-%d", k)
+			h.w.Store.Arm(&vstore.FaultPlan{At: k, Kind: kind})
+		default:
+			faultAt = "KeySet"
+			h.w.Store.Arm(&vstore.FaultPlan{Method: faultAt, Kind: kind})
+		}
+		faultAt += "/" + kind.Err().Error()
+	}
 	resp := h.endSession(hint, clientID, postLogout, state)
-	h.note("end_session", fmt.Sprintf("id_token_hint=%s (%s: %s) client_id=%q post_logout=%q state=%q", t.ref(), hintKind, short(hint), clientID, postLogout, state), resp.Brief())
+	fired := false
+	if faultAt != "" {
+		fired = h.w.Store.Fired() > 0
+		h.w.Store.Arm(nil)
+	}
+	under := ""
+	if fired {
+		under = " UNDER AN INJECTED STORAGE FAULT (" + faultAt + ")"
+	}
+	h.note("end_session", fmt.Sprintf("id_token_hint=%s (%s: %s) client_id=%q post_logout=%q state=%q%s", t.ref(), hintKind, short(hint), clientID, postLogout, state, under), resp.Brief())
 	h.run.Eval()
-	if h.bad(resp, "end_session") {
+	if h.bad(resp, "end_session"+under) {
 		return
 	}
-	h.run.Distinct(fmt.Sprintf("%s|end_session|%s|%s|cid=%v|plr=%v|extras=%v", h.rn, t.Via, hintKind, clientID != "", postLogout != "", h.extras))
+	h.run.Distinct(fmt.Sprintf("%s|end_session|%s|%s|cid=%v|plr=%v|extras=%v|fault=%v", h.rn, t.Via, hintKind, clientID != "", postLogout != "", h.extras, fired))
+	// the tokens of the session the hint names
+	var session []*mTok
+	for _, o := range h.pool {
+		if o.User == t.User && o.Client == t.Client && o.Kind != "id" {
+			session = append(session, o)
+		}
+	}
+	if fired {
+		at := faultAt[:strings.Index(faultAt, "/")]
+		h.run.Count("end_session_under_storage_fault", fmt.Sprintf("%s:extras=%v:%d", at, h.extras, resp.Status))
+		switch at {
+		case "TerminateSessionFromRequest":
+			h.run.Observed("end_session-under-storage-fault:from-request:" + h.rn)
+		case "TerminateSession":
+			h.run.Observed("end_session-under-storage-fault:plain:" + h.rn)
+		}
+	}
 	if resp.Status != 302 {
 		// whether a genuine hint may be refused is C18's business; the session then simply is not terminated
 		h.run.Count("end_session", fmt.Sprintf("refused_%d:%s", resp.Status, hintKind))
+		if !fired {
+			return
+		}
+		// an error answer under a fault: nothing is demanded of the session (the statement speaks of logouts that
+		// were answered as such). The storage monitor tells whether the failed request ended the session anyway; the
+		// model follows it (adaptive, counted) so that the rest of the history is judged against the real world.
+		h.run.Observed("end_session-under-storage-fault:error-answer:" + h.rn)
+		followed := false
+		for _, o := range session {
+			dead := !h.w.Store.TokenLive(o.ID)
+			if o.Kind == "refresh" {
+				dead = !h.w.Store.RefreshLive(o.Str)
+			}
+			if o.live() && dead {
+				o.Terminated, followed = true, true
+			}
+		}
+		if followed {
+			h.run.Count("end_session", "grey_error_answer_under_fault_terminated_anyway")
+			return
+		}
+		// nothing ended: the session's live tokens are still honoured (two-directional userinfo / introspection)
+		h.hot = session
+		if len(session) > 0 {
+			h.probe(pick(h.r, session...))
+		}
 		return
 	}
 	h.run.Observed("end_session-" + hintKind + "-hint:" + h.rn)
@@ -725,6 +802,23 @@ func (h *hist) opEndSession() {
 		h.run.Observed("end_session-from-request:" + h.rn)
 	} else {
 		h.run.Observed("end_session-plain:" + h.rn)
+	}
+	if fired {
+		// a logout answered as successful although a storage call of the request failed: every token of the session is
+		// presented at userinfo and at introspection by its owner right away
+		h.run.Observed("end_session-under-storage-fault:success-answer:" + h.rn)
+		for _, o := range h.hot {
+			if h.stop {
+				return
+			}
+			if o.access() {
+				h.opUserinfo(o)
+				h.opIntrospect(o, "owner")
+			} else {
+				h.opExchange(o, nil)
+			}
+		}
+		return
 	}
 	if len(h.hot) > 0 {
 		h.probe(pick(h.r, h.hot...))
